@@ -562,8 +562,12 @@ def special_scheds(pid, th, rng):
             for freq in [1, 2, 3]:
                 cmds = [R()] + [x for _ in range(6) for x in (A(freq), R())]
                 out.append({"cfg": C(kind="Emit", cap=cap, freq=freq, mode="pure"), "cmds": cmds, "epilogue": "cancel", "origin": "keep-up"})
-                cmds = [A(3 * freq + 1), R(), R(), A(1), R(), R(), A(freq), R()]
-                out.append({"cfg": C(kind="Emit", cap=cap, freq=freq, mode="try", fail=[1, 4]), "cmds": cmds, "epilogue": "cancel", "origin": "slow-consumer"})
+                # a consumer that stalls for several ticks and then reads quickly: f must still not be called twice within one tick
+                for stall in (3 * freq + 1, 2 * freq + 1, 5 * freq):
+                    cmds = [A(stall), R(), R(), A(1), R(), R(), A(freq), R(), A(freq), R()]
+                    out.append({"cfg": C(kind="Emit", cap=cap, freq=freq, mode="pure"), "cmds": cmds, "epilogue": "cancel", "origin": "slow-consumer"})
+                    cmds = [R("exx"), A(stall), R(), R("exx"), R(), A(1), R(), R("exx"), R(), A(freq), R(), R("exx")]
+                    out.append({"cfg": C(kind="Emit", cap=cap, freq=freq, mode="try", fail=[1, 4]), "cmds": cmds, "epilogue": "cancel", "origin": "slow-consumer"})
     B = lambda *cs: {"c": "burst", "sub": list(cs)}
     if pid == "C10":
         # workers held inside Combine while the rest of the input sits in the buffer and the input is closed; then every order of release
